@@ -19,6 +19,9 @@ def comp_family(seed, n, maxlen=3, budget=2500):
                     it["hidden"] = True
                 if it["kind"] == "arg" and it["vt"] != "int" and rnd.random() < 0.5:
                     it["completer"] = [f"cv{it['id']}a", f"cv{it['id']}b"]
+                elif it["kind"] == "arg" and rnd.random() < 0.4:
+                    # values completed by the shell (`complete_shell`): the item is still offered by name
+                    it["complete_shell"] = rnd.choice(["file", "dir", "nothing"])
     return fam + D.prefix_cmd_family(seed + 2, 6)
 
 
